@@ -197,3 +197,165 @@ and a signature cannot say `bs=0`: see `C12.validAbi_rejects_zero_block` -/
 example : writeCString 16 [0x61] = .ok (0x61 :: zeros 15) := by decide
 
 end TruthModel.C15
+
+/-! ## the general block-wise C string round trip (proved)
+
+This section supersedes the note above: `cstring_block_roundtrip_full` is now a theorem
+(`cstring_block_roundtrip`), for every block size > 0 and every NUL-free byte string, by induction over
+the blocks (`readCStringBlockwise_padded`) and the shape of `null_pad` (`nullPad_shape`).  The ANM
+container proof has the block-size-16 instance on its own reader (`C03Anm.readCStr16Aux_nullPad`). -/
+namespace TruthModel.C15
+
+/-! ### the general block-wise round trip -/
+
+theorem getLast?_append_zeros_succ (t : Bytes) (k : Nat) : (t ++ zeros (k + 1)).getLast? = some 0 := by
+  simp [zeros, List.replicate_succ', ← List.append_assoc]
+
+theorem dropWhile_zeros_append (k : Nat) (l : Bytes) : (zeros k ++ l).dropWhile (· == 0) = l.dropWhile (· == 0) := by
+  induction k with
+  | zero => simp [zeros]
+  | succ k ih =>
+    simp only [zeros, List.replicate_succ, List.cons_append] at ih ⊢
+    rw [List.dropWhile_cons_of_pos (by simp)]
+    exact ih
+
+theorem not_mem_of_contains {t : Bytes} (h : t.contains 0 = false) : (0 : UInt8) ∉ t := by
+  intro hm
+  have : t.contains 0 = true := by simp [hm]
+  rw [this] at h; cases h
+
+/-- trailing NULs after a NUL-free string are exactly what the reader strips -/
+theorem stripTrailingZeros_append_zeros (t : Bytes) (k : Nat) (h0 : t.contains 0 = false) :
+    stripTrailingZeros (t ++ zeros k) = t := by
+  unfold stripTrailingZeros
+  have hz : (zeros k).reverse = zeros k := by simp [zeros]
+  rw [List.reverse_append, hz, dropWhile_zeros_append]
+  have : t.reverse.dropWhile (· == 0) = t.reverse := by
+    cases hr : t.reverse with
+    | nil => rfl
+    | cons a r =>
+      have ha : a ∈ t := by rw [← List.mem_reverse, hr]; exact List.mem_cons_self ..
+      have hne : a ≠ 0 := by
+        intro h; subst h
+        exact not_mem_of_contains h0 ha
+      rw [List.dropWhile_cons_of_neg (by simp [hne])]
+  rw [this, List.reverse_reverse]
+
+/-- the reader on `s ++ z NULs ++ rest`, where `1 ≤ z ≤ block` NULs bring `s` to a whole number `k` of
+blocks: after `k` blocks it returns everything read so far without the trailing NULs, and `rest` -/
+theorem readCStringBlockwise_padded (block : Nat) (hb : block ≠ 0) :
+    ∀ (k : Nat) (s acc rest : Bytes) (z : Nat), s.contains 0 = false → 1 ≤ z → z ≤ block →
+      s.length + z = k * block →
+      readCStringBlockwise block k acc (s ++ zeros z ++ rest) = .ok (stripTrailingZeros (acc ++ s ++ zeros z), rest) := by
+  intro k
+  induction k with
+  | zero =>
+    intro s acc rest z _ hz1 _ hk
+    omega
+  | succ n ih =>
+    intro s acc rest z hs hz1 hz2 hk
+    rw [readCStringBlockwise, if_neg hb]
+    have hlen : ¬ (s ++ zeros z ++ rest).length < block := by
+      have : block ≤ (n + 1) * block := Nat.le_mul_of_pos_left _ (by omega)
+      simp only [List.length_append, zeros, List.length_replicate]
+      omega
+    rw [if_neg hlen]
+    by_cases hlt : s.length < block
+    · -- the last block
+      have hn : n = 0 := by
+        cases n with
+        | zero => rfl
+        | succ m =>
+          have : (m + 1 + 1) * block = m * block + 2 * block := by
+            rw [Nat.add_mul, Nat.add_mul]; omega
+          omega
+      subst hn
+      have hl : (s ++ zeros z).length = block := by
+        simp only [List.length_append, zeros, List.length_replicate]; omega
+      have htake : (s ++ zeros z ++ rest).take block = s ++ zeros z := by
+        rw [← hl, List.take_left]
+      have hdrop : (s ++ zeros z ++ rest).drop block = rest := by
+        rw [← hl, List.drop_left]
+      simp only [htake, hdrop]
+      have hk1 : z = (z - 1) + 1 := by omega
+      have hlast : (acc ++ (s ++ zeros z)).getLast? = some 0 := by
+        rw [← List.append_assoc, hk1, getLast?_append_zeros_succ]
+      have hb1 : ((acc ++ (s ++ zeros z)).getLast? == some 0) = true := by rw [hlast]; rfl
+      rw [if_pos hb1, ← List.append_assoc]
+    · have hge : block ≤ s.length := by omega
+      have htake : (s ++ zeros z ++ rest).take block = s.take block := by
+        rw [List.append_assoc, List.take_append_of_le_length hge]
+      have hdrop : (s ++ zeros z ++ rest).drop block = s.drop block ++ zeros z ++ rest := by
+        rw [List.append_assoc, List.drop_append_of_le_length hge, List.append_assoc]
+      simp only [htake, hdrop]
+      have hlast : (acc ++ s.take block).getLast? ≠ some 0 := by
+        intro h
+        have hl : (s.take block).length = block := by rw [List.length_take]; omega
+        rw [List.getLast?_append] at h
+        cases hq : (s.take block).getLast? with
+        | none =>
+          rw [List.getLast?_eq_none_iff] at hq
+          rw [hq] at hl; simp at hl; omega
+        | some v =>
+          rw [hq] at h
+          simp only [Option.some_or, Option.some.injEq] at h
+          subst h
+          exact not_mem_of_contains hs (List.mem_of_mem_take (List.mem_of_getLast? hq))
+      have hb2 : ¬ ((acc ++ s.take block).getLast? == some 0) = true := by
+        intro hh; exact hlast (by simpa using hh)
+      rw [if_neg hb2]
+      have hs' : (s.drop block).contains 0 = false := by
+        cases hc : (s.drop block).contains 0 with
+        | false => rfl
+        | true =>
+          simp only [List.contains_eq_mem, decide_eq_true_eq] at hc
+          exact absurd (List.mem_of_mem_drop hc) (not_mem_of_contains hs)
+      have hk' : (s.drop block).length + z = n * block := by
+        simp only [List.length_drop]
+        have : (n + 1) * block = n * block + block := by rw [Nat.add_mul]; omega
+        omega
+      rw [ih (s.drop block) (acc ++ s.take block) rest z hs' hz1 hz2 hk']
+      rw [List.append_assoc acc, List.take_append_drop]
+
+/-- what `null_pad` appends: between 1 and `block` NULs, up to the next multiple of the block size -/
+theorem nullPad_shape (block : Nat) (hb : block ≠ 0) (s : Bytes) :
+    ∃ z k, nullPad block s = s ++ zeros z ∧ 1 ≤ z ∧ z ≤ block ∧ s.length + z = k * block := by
+  unfold nullPad
+  have hpos : 0 < block := Nat.pos_of_ne_zero hb
+  have hdm := Nat.div_add_mod (s.length + 1) block
+  have hmod := Nat.mod_lt (s.length + 1) hpos
+  by_cases h0 : (s.length + 1) % block = 0
+  · refine ⟨1, (s.length + 1) / block, ?_, Nat.le_refl _, hpos, ?_⟩
+    · simp only [h0, if_true]
+      congr 2; omega
+    · rw [h0] at hdm; rw [Nat.mul_comm]; omega
+  · refine ⟨1 + block - (s.length + 1) % block, (s.length + 1) / block + 1, ?_, by omega, by omega, ?_⟩
+    · simp only [h0, if_false]
+      congr 2; omega
+    · rw [Nat.add_mul, Nat.mul_comm]; omega
+
+/-- **The block-wise C string round trip, for every block size and every NUL-free byte string**:
+`read_cstring_blockwise(block)` on what `write_cstring(s, block)` wrote returns `s` and leaves
+whatever follows unread.  (`cstring_block_roundtrip_full` was only stated before.) -/
+theorem cstring_block_roundtrip : cstring_block_roundtrip_full := by
+  intro block b tl out hb h0 hw
+  simp only [writeCString, if_neg hb, Outcome.ok.injEq] at hw
+  obtain ⟨z, k, hshape, hz1, hz2, hk⟩ := nullPad_shape block hb b
+  subst hw
+  have hlen : (nullPad block b).length / block = k := by
+    rw [hshape]
+    simp only [List.length_append, zeros, List.length_replicate]
+    rw [hk, Nat.mul_div_cancel _ (Nat.pos_of_ne_zero hb)]
+  rw [hlen, hshape, readCStringBlockwise_padded block hb k b [] tl z h0 hz1 hz2 hk]
+  simp only [List.nil_append]
+  rw [stripTrailingZeros_append_zeros b z h0]
+
+/-- the hypotheses are satisfiable: 17 bytes with block size 16 (two blocks), followed by other data -/
+example : readCStringBlockwise 16 2 [] (nullPad 16 (List.replicate 17 0x41) ++ [7, 0, 9])
+    = .ok (List.replicate 17 0x41, [7, 0, 9]) := by decide
+
+/-- the round trip needs the string to be NUL-free: an embedded NUL at a block end stops the reader early -/
+theorem cstring_nul_truncates :
+    readCStringBlockwise 2 2 [] (nullPad 2 [0x41, 0, 0x42]) = .ok ([0x41], [0x42, 0]) := by decide
+
+end TruthModel.C15
